@@ -1,7 +1,7 @@
 (* Property C08 - only statements, each closed by [exact]. *)
 From Coq Require Import NArith ZArith List Bool Floats Sorting.Sorted Permutation.
 Import ListNotations.
-Require Import UV.C08.Model UV.C08.Proofs UV.C08.Figures UV.C08.Open UV.C08.Order UV.C08.Checker UV.C08.OpenSpec UV.C08.SortChecker UV.C08.Merge UV.C08.Lost UV.C08.LostSpec UV.C08.Inherit UV.C08.SelfDiff UV.C08.Stdv UV.C08.StdvFacts UV.C08.TaskMode.
+Require Import UV.C08.Model UV.C08.Proofs UV.C08.Figures UV.C08.Open UV.C08.Order UV.C08.Checker UV.C08.OpenSpec UV.C08.SortChecker UV.C08.Merge UV.C08.Lost UV.C08.LostSpec UV.C08.Inherit UV.C08.SelfDiff UV.C08.Stdv UV.C08.StdvFacts UV.C08.TaskMode UV.C08.DiffSort UV.C08.DiffSortProofs.
 Local Open Scope N_scope.
 
 (* The accumulation automaton of fstack_account_time + report_update_node (uint64 arithmetic, clamp
@@ -141,6 +141,17 @@ Theorem C08_self_diff_stdout : forall c,
 Proof. exact (fun c => diff_stdout_self (report c) (report_names_sorted c)). Qed.
 Print Assumptions C08_self_diff_stdout.
 
+(* report --diff OTHER: rows follow the requested key.  For every diff policy (abs / no-abs, percent / no-percent),
+   every --sort-column (0 base, 1 other, 2 difference) and every key list, the rows are a permutation of the
+   paired rows (functions of both data sets, each once) in which no row stands before a row that is larger under
+   the key list, and the run-time order checker accepts the model's order. *)
+Theorem C08_diff_rows_follow_key : forall pol col ks base pair,
+  StronglySorted (notlt (cmp_d pol col ks)) (diff_order pol col ks base pair)
+  /\ Permutation (diff_pairs base pair) (diff_order pol col ks base pair)
+  /\ sorted_by (cmp_d pol col ks) (diff_order pol col ks base pair) = true.
+Proof. exact diff_order_sorted. Qed.
+Print Assumptions C08_diff_rows_follow_key.
+
 (* The printed time is the value truncated to its unit (us, ms, s, m = 60 s, h = 60 m) for every value below
    1000 hours (exact below 1 ms). *)
 Theorem C08_printed_time : forall ns, ns < 3600000000000000 -> ok_cell ns (fmt_time ns) = true.
@@ -267,6 +278,24 @@ Theorem C08_diff_sign_legacy_refuted :
   /\ show_dtime 100 300 = Some (false, 0, 200, 0) /\ show_dtime 300 100 = Some (true, 0, 200, 0).
 Proof. exact diff_sign_legacy_refuted. Qed.
 Print Assumptions C08_diff_sign_legacy_refuted.
+
+(* report --diff: --sort-column 1 was sorted by the base figures (fix 29f6519) *)
+Theorem C08_diff_column1_legacy_refuted :
+  names_of (sort_by (cmp_d_legacy (mkdp true false) 1 [K_total]) (diff_pairs ex_base ex_pair)) = [5; 2; 1; 4; 3]%N
+  /\ names_of (diff_order (mkdp true false) 1 [K_total] ex_base ex_pair) = [5; 1; 4; 3; 2]%N.
+Proof. exact diff_column1_legacy_refuted. Qed.
+Print Assumptions C08_diff_column1_legacy_refuted.
+
+(* report --diff, abs policy: +x and -x compared as "less" in both directions - not an order (fix 434cc50) *)
+Theorem C08_diff_abs_tie_legacy_refuted :
+  let pol := mkdp true true in
+  cmp_d_legacy pol 2 [K_total] (tn 1 10000, tn 1 18000) (tn 2 20000, tn 2 4000) = Lt
+  /\ cmp_d_legacy pol 2 [K_total] (tn 2 20000, tn 2 4000) (tn 1 10000, tn 1 18000) = Lt
+  /\ cmp_d pol 2 [K_total] (tn 1 10000, tn 1 18000) (tn 2 20000, tn 2 4000) = Eq
+  /\ names_of (sort_by (cmp_d_legacy pol 2 [K_total]) (diff_pairs ex_base ex_pair)) = [2; 1; 4; 5; 3]%N
+  /\ names_of (diff_order pol 2 [K_total] ex_base ex_pair) = [1; 2; 4; 5; 3]%N.
+Proof. exact diff_abs_tie_legacy_refuted. Qed.
+Print Assumptions C08_diff_abs_tie_legacy_refuted.
 
 (* LOST markers (fix c76be09): before, every marker took 1 ns from the Self time of the innermost open call
    (Self 799 of a call of 800 ns without callees); now the figures are exact *)
